@@ -98,6 +98,8 @@ func c05World(c *Ctx) *refgraph.World {
 	return w
 }
 
+var c05rot int
+
 type c05Target struct {
 	doc  string
 	toks []string
@@ -124,7 +126,30 @@ func c05Targets(w *refgraph.World) []c05Target {
 						c05Target{u, []string{sec.name, mem.K, "allOf", "7"}, "schema"},         // dangling index
 						c05Target{u, []string{sec.name, mem.K, "properties", "nope"}, "schema"}) // dangling member
 				case "parameter":
-					out = append(out, c05Target{u, []string{sec.name, mem.K, "items"}, "items"})
+					out = append(out, c05Target{u, []string{sec.name, mem.K, "items"}, "items"},
+						c05Target{u, []string{sec.name, mem.K, "schema"}, "schema"}) // optional member that is not set
+				case "response":
+					out = append(out, c05Target{u, []string{sec.name, mem.K, "schema"}, "schema"},
+						c05Target{u, []string{sec.name, mem.K, "headers", "nope", "items"}, "items"}) // dangling
+				case "pathItem":
+					// pointers THROUGH the typed containers of a path item: operations, their responses (status codes,
+					// default), parameter lists; the members that are not set designate nothing
+					out = append(out, c05Target{u, []string{sec.name, mem.K, "get", "responses", "200"}, "response"},
+						c05Target{u, []string{sec.name, mem.K, "get", "responses", "404"}, "response"},
+						c05Target{u, []string{sec.name, mem.K, "get", "responses", "default"}, "response"},
+						c05Target{u, []string{sec.name, mem.K, "get", "responses", "x-nope"}, "response"},
+						c05Target{u, []string{sec.name, mem.K, "put", "responses", "200"}, "response"},
+						c05Target{u, []string{sec.name, mem.K, "get", "parameters", "0"}, "parameter"},
+						c05Target{u, []string{sec.name, mem.K, "parameters", "2"}, "parameter"},
+						c05Target{u, []string{sec.name, mem.K, "get", "responses", "200", "schema"}, "schema"})
+				}
+				if sec.kind == "schema" {
+					// optional pointer-typed members of a schema that are not set
+					for _, unset := range []string{"not", "additionalProperties", "additionalItems", "externalDocs", "xml"} {
+						if c05rot++; c05rot%3 == 0 {
+							out = append(out, c05Target{u, []string{sec.name, mem.K, unset}, "schema"})
+						}
+					}
 				}
 			}
 			out = append(out, c05Target{u, []string{sec.name, "does-not-exist"}, sec.kind})
